@@ -12,6 +12,7 @@
  R4 reader / updater panic audit (A5): hops(), target_hop(), is_target(), is_in_round(), round(), round_count(), hops_for_flow() and
     State::update_from_round under the stated invariants: probes carry 1 ≤ ttl ≤ MAX_TTL — the lower bound only if Builder::build rejects
     first_ttl < 1 —, FlowState.hops has MAX_TTL entries, and (D4, rounds come from Strategy) lowest_ttl − 1 ≤ highest_ttl ≤ MAX_TTL.
+ C06.R2, C05.R8 (imported): every ttl of the round is probed once (a re-issue keeps its ttl) and every probe of the round reaches its hop (no take / skip on the way).
 Not decided: that the reported length equals the target's true distance (network ground truth).
 """
 import re
